@@ -53,6 +53,17 @@ Definition mon (m : mst) (o : op) (out : list obs) : mst * verdict :=
   | Burst ks, _ =>
       let '(sn, l, v) := mon_burst (m_last m) (m_seen m) (m_last m) ks out in
       ({| m_seen := sn; m_last := l; m_unans := m_unans m; m_notifs := m_notifs m |}, v)
+  | DupBurst h ks, RetCtr c :: rest =>
+      (* withheld: judged as the withheld request, the overlapping calls as a burst *)
+      let '(sn, l, v) := mon_burst (m_last m) (m_seen m) (m_last m) ks rest in
+      ({| m_seen := sn; m_last := l; m_unans := m_unans m; m_notifs := m_notifs m |},
+       (if mem_pair c h (m_unans m) then [] else [CL_WITHHELD]) ++ v)
+  | DupBurst h ks, Written c k p :: RetCtr c' :: rest =>
+      (* sent (no identical request was unanswered): the request, then the burst *)
+      let '(sn, l, v) := mon_burst c (c :: m_seen m) c ks rest in
+      ({| m_seen := sn; m_last := l; m_unans := (c, h) :: m_unans m; m_notifs := m_notifs m |},
+       fresh m c ++
+       (if N.eqb c c' && N.eqb k K_REQUEST && N.eqb p h then [] else [CL_SHAPE]) ++ v)
   | Request h, [Written c k p; RetCtr c'] =>
       (saw m c ((c, h) :: m_unans m) (m_notifs m),
        fresh m c ++
